@@ -88,6 +88,27 @@ func c05Gen(c *core.Ctx) func(yield func(c05Case) bool) {
 		if !ok {
 			return
 		}
+		// programmatic look-ups during initialisation: node i looks node j up inside its Init (also
+		// when i has no injection point of its own and j depends back on i)
+		allGraphs(3, []int{scen.ENone, scen.EName}, false, func(e [][]int) bool {
+			for _, lz := range []int{0, 2, 4, 6} {
+				for i := 0; i < 3; i++ {
+					for j := 0; j < 3; j++ {
+						if i == j {
+							continue
+						}
+						p := scen.GraphProg{N: 3, Edges: e, Lazy: []bool{false, lz&2 == 2, lz&4 == 4}, Obs: 1, Base: []int{0, 1, 2}, Config: true, Family: "n3-initlookup", InitLookup: [][]int{{i, j}}}
+						if ok = yield(c05Case{p, 0}); !ok {
+							return false
+						}
+					}
+				}
+			}
+			return true
+		})
+		if !ok {
+			return
+		}
 		// a processor answers the component itself from before-instantiation for a subset of nodes
 		quickLazy = true
 		for m := 1; m < 8; m++ {
@@ -228,7 +249,11 @@ func reaches(p *scen.GraphProg, from, to int) bool {
 		x := st[len(st)-1]
 		st = st[:len(st)-1]
 		for y := 0; y < p.N; y++ {
-			if p.Edges[x][y] != 0 && !seen[y] {
+			dep := p.Edges[x][y] != 0
+			for _, l := range p.InitLookup { // a look-up inside Init makes x need y just as well
+				dep = dep || (l[0] == x && l[1] == y)
+			}
+			if dep && !seen[y] {
 				if y == to {
 					return true
 				}
@@ -283,7 +308,7 @@ func c05Run(c *core.Ctx) {
 			cc := cs
 			cc.Choices = ch.Choices()
 			key := func(kind string) string {
-				return "C05/" + kind + "/" + core.Hash(p.N, p.Edges, p.Base, p.Lazy, p.Obs, p.ProcNode, p.Bystander, p.Wrap, cc.Choices)
+				return "C05/" + kind + "/" + core.Hash(p.N, p.Edges, p.Base, p.Lazy, p.Obs, p.ProcNode, p.Bystander, p.Wrap, p.InitLookup, cc.Choices)
 			}
 			if !o.OK() {
 				return
